@@ -15,6 +15,8 @@ import time
 import traceback
 
 VERIF = os.path.dirname(os.path.dirname(os.path.abspath(__file__)))
+# scratch runs (parallel regression over archived changes) write their evidence / replay files elsewhere
+OUT_DIR = os.environ.get("PYVC_OUT_DIR") or VERIF
 
 
 class Unit:
@@ -65,6 +67,7 @@ def _run_unit(arg):
             vacuous_paths=res.vacuous_paths, covers=sorted(res.covers), errors=res.errors,
             assumptions=sorted(res.assumptions), seconds=res.seconds,
             obligations=[o.as_dict() for o in res.obligations], notes=sorted(set(res.notes)),
+            state_writes=sorted(res.state_writes),
             expected=list(getattr(unit, "expected", ())),
         )
         # replay refuted obligations against the real code: the unit's own adapter first, then the generic native replay
@@ -128,6 +131,31 @@ def run_property(pid, tier="quick", seed=0, jobs=None):
         unit_results = ar1.get()
         bounded_results = ar2.get()
 
+    # function-level frames: the state (fields of objects that existed before the call, module-level containers) each unit's
+    # function writes, against the committed baseline frames.json (derived from the pinned code). A write outside the
+    # baseline - a memo field, a class-level buffer, a module-level cache - is a frame obligation that needs a witness.
+    frames_path = os.path.join(VERIF, "frames.json")
+    try:
+        with open(frames_path) as f:
+            frames = json.load(f)
+    except Exception:
+        frames = {}
+    if os.environ.get("PYVC_UPDATE_FRAMES") == "1":
+        for u in unit_results:
+            if not u["errors"]:
+                frames[u["unit"]] = sorted(set(frames.get(u["unit"], [])) | set(u.get("state_writes", [])))
+        with open(frames_path, "w") as f:
+            json.dump(frames, f, indent=1, sort_keys=True)
+    else:
+        for u in unit_results:
+            if u["unit"] not in frames:
+                continue
+            extra = sorted(set(u.get("state_writes", [])) - set(frames[u["unit"]]))
+            if extra:
+                u["obligations"].append(dict(id="frame:writes-no-state-beyond-its-modifies-set", status="refuted", seconds=0.0, path="", model=None, backend="write-log",
+                                             vacuous=False, smt_size=0, auto_slots=[], needs_witness=True,
+                                             detail=f"the function now also writes {extra} (its modifies set on the pinned tree: {frames[u['unit']]}); "
+                                                    "state kept across calls can make a later call wrong"))
     obligations = [dict(o, unit=u["unit"]) for u in unit_results for o in u["obligations"]]
     errors = [f"{u['unit']}: {e}" for u in unit_results for e in u["errors"]]
     for b in bounded_results:
@@ -190,7 +218,7 @@ def run_property(pid, tier="quick", seed=0, jobs=None):
 
     # violations
     violations = []
-    os.makedirs(os.path.join(VERIF, "replay"), exist_ok=True)
+    os.makedirs(os.path.join(OUT_DIR, "replay"), exist_ok=True)
     refuted_ids = [k for k, st in id_status.items() if st == "refuted"]
     witness_cache = {}
     for n, k in enumerate(sorted(refuted_ids)):
@@ -209,6 +237,9 @@ def run_property(pid, tier="quick", seed=0, jobs=None):
             witness = witness_cache["w"]
             if witness:
                 reproduced = True
+        if not reproduced and all(x.get("needs_witness") for x in inst):
+            errors.append(f"{k}: {o['detail']} - no failing sequence of calls was found, so this is reported as undecided, not as a violation")
+            continue
         if not reproduced and all(x.get("auto_slots") for x in inst):
             # the proof failed in a context where the contract says nothing about a loop-carried local the code
             # introduced: without a failing input this is "needs contract", not a violation
@@ -216,7 +247,7 @@ def run_property(pid, tier="quick", seed=0, jobs=None):
                           f"{sorted(set(a for x in inst for a in x['auto_slots']))} and no failing input was found")
             continue
         path = os.path.join("replay", f"{pid}-{n}.json")
-        with open(os.path.join(VERIF, path), "w") as f:
+        with open(os.path.join(OUT_DIR, path), "w") as f:
             json.dump(dict(property=pid, obligation=k, unit=o["unit"], verdict="refuted by " + o["backend"],
                            path=o["path"], formula=o["detail"], counter_model=o.get("model"),
                            replay_of_counter_model=rp, witness_from_search=witness,
@@ -227,7 +258,7 @@ def run_property(pid, tier="quick", seed=0, jobs=None):
         for i, fl in enumerate(b.get("failures", [])[:3]):
             safe = "".join(ch if ch.isalnum() or ch in "-_." else "_" for ch in b["name"])
             path = os.path.join("replay", f"{pid}-bounded-{safe}-{i}.json")
-            with open(os.path.join(VERIF, path), "w") as f:
+            with open(os.path.join(OUT_DIR, path), "w") as f:
                 json.dump(dict(property=pid, obligation=f"bounded:{b['name']}", function=b["function"], bound=b["bound"],
                                failing_input=fl.get("input"), detail=fl.get("detail"), reproduced_on_real_code=True,
                                tree=_tree_sha(), rerun=f"./check {pid} --tier {tier}"), f, indent=1, default=str)
@@ -248,7 +279,7 @@ def run_property(pid, tier="quick", seed=0, jobs=None):
                      seconds=round(time.time() - t1, 2), label="bounded - never counted as proved")
         if witness_cache.get("w"):
             path = os.path.join("replay", f"{pid}-search.json")
-            with open(os.path.join(VERIF, path), "w") as f:
+            with open(os.path.join(OUT_DIR, path), "w") as f:
                 json.dump(dict(property=pid, obligation="statement-level-search",
                                verdict="every deductive obligation was discharged, but the statement-level search of the real code found a failing input (a gap in the contracts)",
                                witness_from_search=witness_cache["w"], reproduced_on_real_code=True, tree=_tree_sha(),
@@ -268,7 +299,7 @@ def run_property(pid, tier="quick", seed=0, jobs=None):
             k = sorted(unknown_ids)[0]
             o = by_id[k][0]
             path = os.path.join("replay", f"{pid}-0.json")
-            with open(os.path.join(VERIF, path), "w") as f:
+            with open(os.path.join(OUT_DIR, path), "w") as f:
                 json.dump(dict(property=pid, obligation=k, unit=o["unit"],
                                verdict="obligation undecided by the solvers (unknown); failing input found by bounded search of the real functions against the executable statement",
                                path=o["path"], formula=o["detail"], counter_model=o.get("model"),
@@ -287,7 +318,7 @@ def run_property(pid, tier="quick", seed=0, jobs=None):
                 errors.append(f"witness search crashed: {type(e).__name__}: {e}")
         if witness_cache.get("w"):
             path = os.path.join("replay", f"{pid}-search.json")
-            with open(os.path.join(VERIF, path), "w") as f:
+            with open(os.path.join(OUT_DIR, path), "w") as f:
                 json.dump(dict(property=pid, obligation="statement-level-search",
                                verdict="the deductive part is undecided on this tree (see errors: the contracts no longer fit the code); "
                                        "the statement-level search of the real code found a failing input",
@@ -338,8 +369,8 @@ def run_property(pid, tier="quick", seed=0, jobs=None):
         cov["distinct_nontrivial"] = n_ob + sum(b.get("distinct", b.get("cases", 0)) for b in bounded_results)
     ev = dict(property_id=pid, tier=tier, seed=seed, level=level, coverage=cov,
               assumptions=assumptions, wall_s=round(time.time() - t0, 2), violations=len(violations))
-    os.makedirs(os.path.join(VERIF, "evidence"), exist_ok=True)
-    with open(os.path.join(VERIF, "evidence", f"{pid}.json"), "w") as f:
+    os.makedirs(os.path.join(OUT_DIR, "evidence"), exist_ok=True)
+    with open(os.path.join(OUT_DIR, "evidence", f"{pid}.json"), "w") as f:
         json.dump(ev, f, indent=1, default=str)
 
     # report
